@@ -290,7 +290,7 @@ func (self Node) AsI64(ctx *Context) (int64, bool) {
 	} else if typ == KSint {
 		return self.I64(), true
 	} else if typ == KRawNumber {
-		val, err := self.Number(ctx).Int64()
+		val, err := json.Number(self.Raw(ctx)).Int64()
 		if err != nil {
 			return 0, false
 		}
@@ -427,7 +427,7 @@ func (val Node) AsF64(ctx *Context) (float64, bool) {
 	case KReal:
 		return float64(val.F64()), true
 	case KRawNumber:
-		f, err := val.Number(ctx).Float64()
+		f, err := json.Number(val.Raw(ctx)).Float64()
 		return f, err == nil
 	default:
 		return 0, false
@@ -493,7 +493,15 @@ func (val Node) IsRawNumber() bool {
 }
 
 func (val Node) Number(ctx *Context) json.Number {
-	return json.Number(val.Raw(ctx))
+	return numberText(ctx, val.Raw(ctx))
+}
+
+// numberText makes a json.Number of a piece of the input: a copy under CopyString, like any other string value.
+func numberText(ctx *Context, s string) json.Number {
+	if ctx.Options()&(1<<_F_copy_string) != 0 {
+		return json.Number(string(rt.Str2Mem(s)))
+	}
+	return json.Number(s)
 }
 
 func (val Node) Raw(ctx *Context) string {
@@ -538,7 +546,7 @@ func (val Node) NonstrAsNumber(ctx *Context) (json.Number, bool) {
 	if !ok {
 		return "", false
 	}
-	return json.Number(ctx.Parser.Json[start:end]), true
+	return numberText(ctx, ctx.Parser.Json[start:end]), true
 }
 
 func (val Node) AsRaw(ctx *Context) string {
